@@ -711,7 +711,7 @@ func c01Delete(c *Ctx) {
 		return
 	}
 	var cl0 *ssa.Function
-	for _, s := range txSites(del) {
+	for _, s := range txSitesBody(del) {
 		if s.Write && s.Closure != nil {
 			cl0 = s.Closure
 		}
